@@ -10,8 +10,7 @@ import (
 )
 
 // ruleNoArgMutation (C02-R1): writing never modifies the caller's objects.
-func ruleNoArgMutation(c *core.Ctx) {
-	const rule = "C02-R1"
+func ruleNoArgMutation(c *core.Ctx, rule string) {
 	type entry struct {
 		fn     string
 		params []string
